@@ -161,6 +161,9 @@ func vbvNewWorld(t *testing.T, rng *rand.Rand, n int, c1, c2 uint64) *vbvWorld {
 	// the `below` attribute is decided against the threshold of the property text, computed here with 512-bit
 	// arithmetic and without the code under test: 2^128 * (1 - (1 - c1/c2)^(1/n))
 	w.thr = vbvThreshold(c1, c2, n)
+	if w.thr.BitLen() <= 120 {
+		w.window = 8192 // winning slots are rare: search further
+	}
 	w.parent = types.NewEmptyHeader()
 	return w
 }
@@ -594,7 +597,8 @@ func TestVerifBabeVerify(t *testing.T) {
 	}
 	// the same c with different authority counts, and a saturated threshold in between: the epoch threshold is a
 	// function of (c, n) alone, whatever was computed before
-	specs := []wspec{{3, 1, 2}, {2, 1, 1}, {2, 1, 2}}
+	// ... and a small c: the threshold is below 2^120 (its top byte is zero), as with many authorities on a real network
+	specs := []wspec{{3, 1, 2}, {2, 1, 1}, {2, 1, 2}, {2, 1, 400}}
 	reps := vEnvInt("VERIF_BABE_WORLDS", 0)
 	for i := 0; i < reps; i++ {
 		c2 := uint64(2 + rng.Intn(6))
